@@ -365,6 +365,17 @@ def run(ctx):
                         bad.append((op, "%s fails: `%s` -> `%s`, accepted `%s`" % (what, s_op[:120], g[:300], hx(x)[:300])))
             elif g != exp:
                 bad.append((op, "%s fails: `%s` -> `%s`, accepted `%s`" % (what, s_op[:200], g[:300], exp[:300])))
+    # correspondence with the Lean models of the bpki codecs (Bee2V/C08/Model3.lean)
+    modelled = ("pkdec", "shdec", "eddec", "csrdec", "pkenc", "shenc", "edenc")
+    mops = [(o, r) for o, r in list(zip(enc_ops, enc_out)) + list(zip(ops, res)) if o.split(" ")[0] in modelled]
+    mism = []
+    if mops and os.path.exists(ctx.driver()):
+        lres, lerr, lrc = ctx.run_lines(ctx.driver(), [o for o, _ in mops])
+        if lrc != 0 or len(lres) != len(mops):
+            raise RuntimeError("Lean driver failed on container ops: " + lerr[-300:])
+        mism = [(o, c, l) for (o, c), l in zip(mops, lres) if c != l and not c.startswith("CRASH")]
+    ctx.cov["containers_model_ops"] = len(mops)
+    ctx.cov["containers_model_disagreements"] = len(mism)
     ctx.cov["containers"] = {"samples": len(valid), "ops_by_kind": kinds, "accepted": acc, "rejected": len(ops) - acc,
                              "reencode_checks": len(second), "failures": len(bad)}
     ctx.cov["ops_total"] = ctx.cov.get("ops_total", 0) + len(ops) + len(enc_ops) + len(second)
@@ -376,7 +387,12 @@ def run(ctx):
         seen.add(key)
         ctx.violation(key, "# property C08 (containers): %s\n# replay: ./check C08 --replay <this file>\nop c08b %s\n" % (what.replace("\n", " ")[:1500], op),
                       True, "%s: `%s`: %s" % (key, op[:200], what[:700]))
-    return len(bad)
+    if not bad:
+        for o, c, l in mism[:2]:
+            ctx.violation("correspondence:container:" + o.split(" ")[0],
+                          "# property C08 (containers): Lean model (Model3.lean) and implementation disagree; the oracle found no property failure\nop c08b %s\nimpl %s\nmodel %s\n" % (o, c[:2000], l[:2000]),
+                          False, "%d container ops differ, e.g. `%s` impl=`%s` model=`%s`" % (len(mism), o[:200], c[:200], l[:200]))
+    return len(bad) + len(mism)
 
 
 def replay(ctx, op):
